@@ -72,6 +72,9 @@ def h_step(ctx, sub, nlist, twin=False):
     v = PusVerificator()
     ctx.holds("new telecommand accepted", v.add_tc(tc) == True)  # noqa: E712
     rid = RequestId.from_pus_tc(tc)
+    st0 = v.verif_dict.get(rid)
+    ctx.holds("an accepted telecommand is tracked, with a fresh status", st0 is not None and len(v.verif_dict) == 1 and sym_and(
+        st0.accepted == -1, st0.started == -1, st0.step == -1, st0.completed == -1, st0.all_verifs_recvd == False, len(st0.step_list) == 0))  # noqa: E712
     pre, plist = sym_status(ctx, nlist)
     v.verif_dict[rid] = pre
     p_all, p_acc, p_sta, p_step, p_list, p_comp = snap(pre)
